@@ -88,7 +88,21 @@ let commit_of_case p obits =
   { cm_round = p.round; cm_setid = p.msgsetid; cm_vote = { v_hash = p.tblk; v_num = p.tnum };
     cm_precommits = pcs; cm_authdata = ads }
 
+let check_payload f obs =
+  match f, split_ws obs with
+  | [_; st; h; num; round; setid], [hand; enc] ->
+    let model = hex_of_bytes (vote_payload (nat_of_int 4) (n_of_hex st) (bytes_of_hex h) (n_of_hex num)
+                                (n_of_hex round) (n_of_hex setid)) in
+    (* prop: the implementation's encoder yields the bytes of the Coq definition; model_eq: so does the
+       hand-written encoder the harness signs and verifies with *)
+    { prop_ok = (enc = model); model_eq = (hand = model); nontrivial = true; finding = "-";
+      tags = "payload,payload-stage-" ^ st;
+      detail = (if enc = model && hand = model then "" else "model=" ^ model) }
+  | _ -> { prop_ok = true; model_eq = false; nontrivial = false; finding = "-"; tags = "payload,bad-observation"; detail = obs }
+
 let check inp obs =
+  let f0 = split_ws inp in
+  if List.hd f0 = "payload" then check_payload f0 obs else
   let p = parse inp in
   let of_ = split_ws obs in
   let (ores, onfin, ofin, ostored, otracked, obits, ohas, ostore) = (match of_ with
@@ -194,6 +208,7 @@ let coq_list f l = "[" ^ String.concat "; " (List.map f l) ^ "]"
 let coq_opt f = function None -> "None" | Some x -> "(Some " ^ f x ^ ")"
 let coq_bool b = if b then "true" else "false"
 let coq inp obs =
+  if String.length inp > 8 && String.sub inp 0 8 = "payload " then None else
   let p = parse inp in
   match split_ws obs with
   | [ores; onfin; ofin; ostored; otracked; g; _; _] when List.length (parse_bits g) = List.length p.ents ->
